@@ -1,7 +1,7 @@
 (* Pool/LegacyThm.v — the statements of Properties/C41.v that are not literally a lemma of the
    Legacy* files (small wrappers, witness histories evaluated by vm_compute), so that the property
    file contains statements and [exact] only. *)
-From GV Require Import Lib.Tactics Pool.Legacy Pool.LegacyProofs Pool.LegacyInv Pool.LegacyInv2 Pool.LegacyInv3 Pool.LegacyInv4 Pool.LegacyInv5 Pool.LegacyInv6 Pool.LegacyInv7.
+From GV Require Import Lib.Tactics Pool.Legacy Pool.LegacyProofs Pool.LegacyInv Pool.LegacyInv2 Pool.LegacyInv3 Pool.LegacyInv4 Pool.LegacyInv5 Pool.LegacyInv6 Pool.LegacyInv7 Pool.LegacyInv8 Pool.LegacyInv9 Pool.LegacyInv10.
 Local Open Scope N_scope.
 
 Lemma C41_promote_appends_stmt : forall l t s,
@@ -128,3 +128,18 @@ Lemma C41_nonvacuous_stmt :
   length (p_all st) = 3%nat /\ queue_count st = 1%nat.
 Proof. split; [vm_compute; reflexivity|]. split; [vm_compute; reflexivity|]. split; [apply lwf_new|]. vm_compute. split; reflexivity. Qed.
 
+
+(* pending_gapless + pendingNonces, over all guarded histories *)
+Lemma C41_pending_gapless_histories_stmt : forall c tip g h, NoDup (c_accts c) -> hist_okG c (pool_init c tip g) h ->
+  let st := run_history (pool_init c tip g) h in
+  forall a, (forall l, p_pending st a = Some l -> contig (ch_nonce (p_chain st) a) (l_txs l)) /\
+            pn_get a st = ch_nonce (p_chain st) a + N.of_nat (pending_len a st) /\
+            (forall l t, p_pending st a = Some l -> last (map Some (l_txs l)) None = Some t -> pn_get a st = t_nonce t + 1).
+Proof.
+  intros c tip g h Hnd H st a.
+  destruct (proj2 (history_SG_all h (pool_init c tip g) (conj (SInv_init c tip g) (GInv_init c tip g)) Hnd H) a) as [G1 G2].
+  split; [exact G1|]. split; [exact G2|]. intros l t Hl Hlast. fold st in G1, G2. specialize (G1 l Hl).
+  unfold pending_len in G2. rewrite Hl in G2. unfold l_len in G2.
+  destruct (l_txs l) as [|x r] eqn:El; [discriminate|].
+  destruct (last_contig r _ x G1) as [t' [H1 H2]]. rewrite Hlast in H1. inversion H1; subst t'. rewrite G2. lia.
+Qed.
